@@ -222,7 +222,7 @@ fn run_tokio(compressed: bool, comps: &[Vec<usize>], hist: &[u8]) -> Run {
     })
 }
 
-fn run(imp: Impl, compressed: bool, comps: &[Vec<usize>], hist: &[u8]) -> Run {
+fn run_once(imp: Impl, compressed: bool, comps: &[Vec<usize>], hist: &[u8]) -> Run {
     match guard(|| match imp {
         Impl::Blocking => run_blocking(compressed, comps, hist),
         Impl::Tokio => run_tokio(compressed, comps, hist),
@@ -230,6 +230,18 @@ fn run(imp: Impl, compressed: bool, comps: &[Vec<usize>], hist: &[u8]) -> Run {
         Ok(r) => r,
         Err(p) => Run { problem: Some(("panic".into(), p)), ..Default::default() },
     }
+}
+
+fn run(imp: Impl, compressed: bool, comps: &[Vec<usize>], hist: &[u8]) -> Run {
+    let r = run_once(imp, compressed, comps, hist);
+    if r.problem.is_some() && watchdog() < WATCHDOG_CONFIRM {
+        // never trust a short timer under load: re-execute the history with the long watchdog
+        WATCHDOG_CELL.with(|c| c.set(WATCHDOG_CONFIRM));
+        let again = run_once(imp, compressed, comps, hist);
+        WATCHDOG_CELL.with(|c| c.set(WATCHDOG_SEARCH));
+        return again;
+    }
+    r
 }
 
 #[derive(Clone, Debug)]
